@@ -11,6 +11,9 @@ NOTE = ("claims are over the reals within the bounds stated in the evidence file
         "classes and term transformations of /verif/vf (validated each run against the real code on floats), stub contracts listed in the evidence")
 
 CHECKS = {
+    "C07": ("5 C07", "relational: each entry point run with Composition(x_of_w(w), molar) and Composition(w, weight) in one exploration "
+                     "(flux solver + helpers + one-point curve and metrics with the real loop, K = 1 (thorough 2); four process models N = 2 "
+                     "(thorough 3) with step-wise lemma chaining; non-ideal curve; measurement extraction from molar vs mass-fraction curves)"),
     "C08": ("5 C08", "relational: standalone flux calculation vs permeate-composition / separation-factor helpers vs one-point ideal curve on "
                      "one symbolic question (3 modes x 2 models x 2 feed bases, real flux loop K = 1 (thorough 2), gamma-UFs keyed by model); "
                      "process level: recorded arguments of every flux call equal the reported state, derived metrics of ProcessModel / DiffusionCurve"),
